@@ -7,7 +7,11 @@ Sections (DESIGN.md 5/C04):
   vectorised       engine P over (operation, dimension, shape): every vectorised geometry routine equals the
                    Python loop over the units;
   shape-histories  engine E over reshape / flatten_to_unit / [i] / iterate / stack / len histories against the
-                   "ndarray of unit labels" model, every root built from arrays of every memory layout (LAYOUTS);
+                   "ndarray of unit labels" model, every root built from arrays of every memory layout (LAYOUTS); in
+                   every state of rank >= 1 the op `overlap` runs several iterations of the SAME object that overlap in
+                   time (nested loops, zip(X, X), alternately advanced iterators, an iterator kept across a full pass,
+                   loops calling len / [j], together with X[::-1] and with a flat reshape, two passes): each must
+                   visit the units along the first axis completely and in order, independently of the others;
   apply-layouts    the apply section again on a smaller shape set with X and / or T built from non-C-contiguous arrays;
   stack-dtypes     engine P over (class, dtype sequence, form): a composite built from an iterable of objects whose
                    coordinate arrays have DIFFERENT dtypes holds, at index i, the values of the i-th object.
@@ -538,6 +542,10 @@ def case_hist(hist):
         elif name == "len":
             if len(obj) != model.shape[0]:
                 v.append(V("history/len/%s" % cls, "len() = %d, expected %d" % (len(obj), model.shape[0])))
+        elif name == "overlap":
+            ov, calls = overlapping_iterations(cls, obj, model)
+            v += ov
+            t += calls
         else:
             raise ValueError(name)
         if type(obj) is not C:
@@ -552,13 +560,148 @@ def case_hist(hist):
         nextops.append(["flatten"])
         if model.ndim >= 1:
             nextops += [["index", i] for i in range(model.shape[0])]
-            nextops += [["iterate"], ["len"]]
+            nextops += [["iterate"], ["len"], ["overlap"]]
         if nxt + N <= 96:
             nextops.append(["stack"])
     if (layout or "C") != "C":
         v = [V(x["key"] + "/non-C-layout", "[object built from a %s array] %s" % (layout, x["msg"])) for x in v]
     key = repr((cls, n, layout or "C", model.shape, tuple(model.flatten().tolist())))
     return {"v": v, "t": t, "o": repr((cls, layout or "C", model.shape)), "nt": model.size > 1, "key": key, "ops": nextops}
+
+
+OVERLAP_PROTOCOLS = ["nested", "zip", "alternate", "staggered", "with-index-and-len", "with-reversed-view",
+                     "with-flat-reshape", "list-twice"]
+
+
+def overlapping_iterations(cls, obj, model):
+    """Several iterations over ONE object that overlap in time: each of them visits the units along the first
+    composite axis in order and completely, whatever the others (or indexing / len() / views) do meanwhile.
+    The object is not changed; returns (violations, library calls)."""
+    v = []
+    calls = [0]
+    C = type(obj)
+    n = int(model.shape[0])
+    sub = tuple(model.shape[1:])
+    data = np.array(obj.proj_data)
+    aux = None if obj.aux_data is None else np.array(obj.aux_data)
+    N = int(model.size)
+
+    def is_unit(x, pd, ad, shape):
+        calls[0] += 1
+        if type(x) is not C or tuple(x.shape) != tuple(shape):
+            return False
+        if not close(x.proj_data, pd, 1e-12):
+            return False
+        return ad is None or (x.aux_data is not None and close(x.aux_data, ad, 1e-9))
+
+    def is_item(x, i):
+        return is_unit(x, data[i], None if aux is None else aux[i], sub)
+
+    def bad(proto, msg):
+        v.append(V("history/iterate/%s/%s" % (proto, cls), "composite shape %r: %s" % (tuple(model.shape), msg)))
+
+    def drain(it, limit):
+        out = []
+        for x in it:
+            out.append(x)
+            if len(out) > limit:
+                break
+        return out
+
+    def in_order(items, idxs=None):
+        idxs = list(range(n)) if idxs is None else idxs
+        return len(items) == len(idxs) and all(is_item(x, i) for x, i in zip(items, idxs))
+
+    # nested loops: all ordered pairs
+    pairs = []
+    for i, p in enumerate(obj):
+        for j, q in enumerate(obj):
+            pairs.append((i, j, p, q))
+            if len(pairs) > n * n:
+                break
+        if len(pairs) > n * n:
+            break
+    if len(pairs) != n * n or not all(is_item(p, i) and is_item(q, j) for (i, j, p, q) in pairs):
+        bad("nested", "`for p in X: for q in X:` visited %d pairs (%r ...), expected all %d pairs (i, j) in order" % (
+            len(pairs), [(i, j) for (i, j, _, _) in pairs[:4]], n * n))
+    # zip(X, X)
+    z = drain(zip(obj, obj), n)
+    if len(z) != n or not all(is_item(p, i) and is_item(q, i) for i, (p, q) in enumerate(z)):
+        bad("zip", "zip(X, X) gave %d pairs, expected the %d pairs (unit i, unit i)" % (len(z), n))
+    # two iterators advanced alternately
+    it1, it2 = iter(obj), iter(obj)
+    a, b = [], []
+    done1 = done2 = False
+    for _ in range(n + 2):
+        if not done1:
+            try:
+                a.append(next(it1))
+            except StopIteration:
+                done1 = True
+        if not done2:
+            try:
+                b.append(next(it2))
+            except StopIteration:
+                done2 = True
+    if not (done1 and done2 and in_order(a) and in_order(b)):
+        bad("alternate", "two iterators advanced alternately yielded %d and %d units, expected %d each, in order" % (len(a), len(b), n))
+    # an iterator started earlier keeps its position while a complete pass is made
+    it = iter(obj)
+    first = [next(it)] if n else []
+    full = drain(obj, n)
+    rest = drain(it, n)
+    if not (in_order(full) and in_order(first + rest)):
+        bad("staggered", "next(it); list(X); list(it): the full pass gave %d units, the earlier iterator %d more (expected %d and %d)" % (
+            len(full), len(rest), n, n - 1))
+    # iteration interleaved with indexing, len() and shape queries
+    got = []
+    ok = True
+    for i, p in enumerate(obj):
+        ok = ok and len(obj) == n and tuple(obj.shape) == tuple(model.shape) and is_item(obj[n - 1 - i], n - 1 - i)
+        got.append(p)
+        if len(got) > n:
+            break
+    if not (ok and in_order(got)):
+        bad("with-index-and-len", "a loop whose body calls len(X), X.shape and X[j] visited %d units (expected %d, in order)" % (len(got), n))
+    # X and the reversed view X[::-1], pairwise and alternately
+    rv = obj[::-1]
+    calls[0] += 1
+    it1, it2 = iter(obj), iter(rv)
+    a, b = [], []
+    for _ in range(n):
+        try:
+            a.append(next(it1))
+            b.append(next(it2))
+        except StopIteration:
+            break
+    tail = drain(it1, n) + drain(it2, n)
+    inner = [(i, j, p, q) for i, p in enumerate(drain(obj, n)) for j, q in enumerate(drain(rv, n))] if n * n <= 64 else None
+    if tail or not (in_order(a) and in_order(b, list(range(n - 1, -1, -1)))) or \
+            (inner is not None and (len(inner) != n * n or not all(is_item(p, i) and is_item(q, n - 1 - j) for (i, j, p, q) in inner))):
+        bad("with-reversed-view", "iterating X together with X[::-1]: %d and %d units (expected %d each, the view in reverse order)" % (len(a), len(b), n))
+    # X and its flat reshape
+    fl = obj.reshape((N,))
+    calls[0] += 1
+    fdata = data.reshape((N,) + data.shape[model.ndim:])
+    faux = None if aux is None else aux.reshape((N,) + aux.shape[model.ndim:])
+    cnt, ok = 0, True
+    for i, p in enumerate(obj):
+        ok = ok and is_item(p, i)
+        for k, u in enumerate(fl):
+            cnt += 1
+            if k == (i * 5 + 1) % N:                    # one unit of the inner pass per outer step, all outer units
+                ok = ok and is_unit(u, fdata[k], None if faux is None else faux[k], ())
+            if cnt > n * N:
+                break
+        if cnt > n * N:
+            break
+    if cnt != n * N or not ok:
+        bad("with-flat-reshape", "`for p in X: for u in X.reshape((N,)):` made %d inner steps, expected %d" % (cnt, n * N))
+    # two complete passes
+    l1, l2 = drain(obj, n), drain(obj, n)
+    if not (in_order(l1) and in_order(l2)):
+        bad("list-twice", "list(X) twice: %d and %d units, expected %d" % (len(l1), len(l2), n))
+    return v, calls[0]
 
 
 def check_units(cls, obj, model, n, seed, after):
@@ -720,6 +863,9 @@ def run(ctx):
                 "stack-dtypes: every (class, dtype sequence, form, iterable kind); units pairwise distinct; non-trivial = "
                 "more than one unit / more than one dtype")
     ctx.assume("elementwise application is demanded only for broadcast-compatible composite shapes (np.broadcast_shapes)")
+    ctx.assume("iterating: like an array (or list) of its units, one object supports any number of simultaneous iterations; each "
+               "visits the units along the first composite axis in order, whatever other iterators, indexing, len() or views "
+               "of the same object do meanwhile (title + last sentence of the property); unit objects (rank 0) are not iterated")
     ctx.assume("pairwise: result axes = object's axes then transformation's axes, entry [i][j] = T[j] applied to X[i] (property text); "
                "pairwise_reversed: transformation's axes first (docstring of utils.matrix_product)")
     ctx.assume("hyperbolic objects are moved by isometries (oracle-built elements of SO(n,1)), projective ones by unimodular integer matrices")
@@ -778,4 +924,6 @@ def run(ctx):
                 domains={"classes": HIST_CLASSES, "initial shapes": [[], [3], [2, 3], [2, 1, 2]],
                          "construction": ["the class's usual constructor (points / endpoints / basepoint+vector)"] +
                                          ["Cls(projective array in %s memory layout)" % l for l in HL],
-                         "ops": "reshape(every shape of rank<=3 of equal size), flatten_to_unit, [i], iterate+restack, stack Cls([x, y]), len"})
+                         "ops": "reshape(every shape of rank<=3 of equal size), flatten_to_unit, [i], iterate+restack, stack Cls([x, y]), len, "
+                                "overlap (object unchanged; all of OVERLAP_PROTOCOLS in one step)",
+                         "overlapping iterations of one object": OVERLAP_PROTOCOLS})
